@@ -25,6 +25,8 @@ def ladder(tier):
 def inconsistency(tb, p_lo, p_hi):
     """The table's own departure from thermodynamic consistency on [p_lo, p_hi], measured on its
     grid: c vs d ln(rho)/dp, m' vs 2p/(mu z), spread of rho z / p."""
+    o = np.argsort(tb["pressure"])
+    tb = {k: np.asarray(v)[o] for k, v in tb.items()}
     p = tb["pressure"]
     sel = (p >= p_lo - 1e-9) & (p <= p_hi + 1e-9)
     if sel.sum() < 5:
@@ -47,13 +49,15 @@ def cases(tier, seed):
     for r in ratios:
         out.append({"cls": "ideal", "table": None, "p_f": r * 8000.0, "p_i": 8000.0, "sched": "scalar",
                     "tier": tier})
-    synth = ["S_ideal", "S_zlin", "S_zdip"]
+    synth = ["S_ideal", "S_zlin", "S_zdip", "S_zdip_desc"]
     shipped = ["T_ship_gas", "T_hay"]
     for tab, r, sc in itertools.product(synth + shipped, ratios, ["scalar", "stepdown", "downup"]):
         p_i = 8000.0
         lo, hi = tables.table_range(tab)
         if not lo <= r * p_i:
             continue
+        if tab.endswith("_desc") and (r not in (0.5, 0.99) or sc == "stepdown"):
+            continue  # the descending-order copy only needs to show that row order does not matter
         out.append({"cls": "single", "table": tab, "p_f": r * p_i, "p_i": p_i, "sched": sc, "tier": tier})
     if tier == "thorough":
         for tab, r in itertools.product(synth, ratios):
@@ -99,7 +103,9 @@ def evaluate(case):
         tb = res.fluid.pvt_props
         pf_arr = np.full(nt, case["p_f"]) if sched is None else sched
         p_low = float(pf_arr.min())
-        rho = lambda q: float(np.interp(q, tb["pressure"], tb["density"]))  # noqa: E731
+        _o = np.argsort(np.asarray(tb["pressure"]))
+        _pp, _rr = np.asarray(tb["pressure"])[_o], np.asarray(tb["density"])[_o]
+        rho = lambda q: float(np.interp(q, _pp, _rr))  # noqa: E731
         ceiling = 1 - rho(p_low) / rho(case["p_i"])
         if rfd.max() > ceiling + 1e-9:
             viol.append(V("ceiling", f"in-place recovery reaches {rfd.max():.6g}, above the physical ceiling "
